@@ -203,5 +203,21 @@ CHECKS['C04'] = dict(
           'terminators between tokens.'),
 )
 
-NOT_APPLICABLE = {p: PENDING for p in ['C01', 'C02', 'C03', 'C05', 'C07',
+CHECKS['C05'] = dict(
+    engine='E1 pyvc + E4',
+    level='other',
+    ref='DESIGN.md 4 (C05)',
+    technique='deductive transition contracts (path-complete, z3) on the real lexer/parser methods that keep the parenthesis stack and re-lex after `}`/`++`/`--`; classification of `/` against the statement\'s context list by a bounded matrix',
+    text=('Proved for all lexer states of the stated shapes: _get_update_token pushes a header frame exactly for `(` after if/for/while/'
+          'with and a plain marker otherwise, pops symmetrically, raises only on an unmatched `)`; _set_tokens keeps the previous/'
+          'valid/real token bookkeeping; backtracked_token rewinds by exactly one character, clears the push-back queue and preserves '
+          'the previous valid token; Parser.p_error returns the re-lexed REGEX only for DIV after `}`/`++`/`--` and otherwise raises '
+          '(60 state combinations). Lexer._token itself (IndexError-driven scanning loops) is outside the subset: whether a given `/` '
+          'is classified as the grammar dictates is decided by a bounded matrix of 39 regex and 24 division contexts x 13 layouts. '
+          'Hence "other".'),
+    note=('Trusted: ply reports the offending token to p_error. Known findings F12 (layout after a header), F13 (function declaration), '
+          'F24 (reserved-word property). Repo fixes: WITH header, non-space white space before `/`.'),
+)
+
+NOT_APPLICABLE = {p: PENDING for p in ['C01', 'C02', 'C03', 'C07',
                                         'C13', 'C19']}
